@@ -922,7 +922,36 @@ def shards(tier, seed):
     return out
 
 
+class SmallestFirst:
+    """buffers violations of a shard and reports them smallest witness first (the runner keeps the first few per
+    mechanism, so the replay files stay small); counts are unchanged"""
+
+    def __init__(self, rec):
+        self._rec = rec
+        self._buf = []
+
+    def __getattr__(self, name):
+        return getattr(self._rec, name)
+
+    def violation(self, mechanism, summary, witness):
+        size = sum(len(m["body"]) for m in witness.get("msgs", [])) + sum(len(m["body"]) for p in witness.get("progs", []) for m in p)
+        self._buf.append((size, len(self._buf), mechanism, summary, witness))
+
+    def flush(self):
+        for _, _, mech, summ, w in sorted(self._buf, key=lambda t: t[:2]):
+            self._rec.violation(mech, summ, w)
+        self._buf = []
+
+
 def run_shard(spec, rec):
+    rec = SmallestFirst(rec)
+    try:
+        _run_shard(spec, rec)
+    finally:
+        rec.flush()
+
+
+def _run_shard(spec, rec):
     kind = spec["kind"]
     seed = spec["seed"] * 1000003 + spec["sub"] * 7919 + {"seq": 1, "seq-ov": 2, "conc": 3, "conc-ov": 4, "flow": 5}[kind]
     rng = random.Random(seed)
